@@ -4,6 +4,7 @@
 // up to 14 steps: deliver any pooled datagram to any object (replay, reordering, duplication, reflection to its own node), or tick an
 // object (every_second). Bound: 6000 schedules x 14 steps, 4 + 2 objects. Everything runs under catch_unwind.
 //   - no step panics (an object that returned a FATAL error is discarded, as the node does);
+//   - a forged datagram (bit flip / truncation of a genuine one, random bytes) is an error in EVERY stage and leaves the stage as it was;
 //   - an object reports success at most once, and only with the node information of the OTHER node (never its own node's);
 //   - an object never reports success on a datagram emitted by an object of its own node;
 //   - an unfinished object fails fatally exactly after MAX_FAILED_RETRIES successful ticks; a finished one never fails.
@@ -94,6 +95,34 @@ fn handshake_stage_machine_survives_replays_and_never_completes_twice_or_with_it
                 continue;
             }
             let mi = r.below(pool.len() as u64) as usize;
+            if r.below(4) == 0 {
+                // a FORGED datagram (one byte of a genuine one altered, a truncation of it, or random bytes): whatever the stage of the
+                // receiving object, it is an error, nothing is answered and the object is as it was (C01)
+                let mut forged = pool[mi].0.clone();
+                let kind = r.below(3);
+                if kind == 0 { let i = r.below(forged.len() as u64) as usize; forged[i] ^= 1 << r.below(8); }
+                else if kind == 1 {
+                    // (the decoder is handed the WHOLE tail of the buffer array, not just the datagram - `out.buffer()` - so a truncated
+                    // datagram is completed by whatever lies behind it, here zeros: cut only where that differs from the genuine bytes)
+                    let n = r.below(forged.len() as u64) as usize;
+                    if forged[n..].iter().all(|b| *b == 0) { continue; }
+                    forged.truncate(n);
+                }
+                else { forged = (0..r.below(200)).map(|_| (r.next() >> 24) as u8).collect(); }
+                let before_stage = objs[oi].st.stage();
+                let mut out = MsgBuffer::new(100);
+                out.clone_from(&forged);
+                let res = panic::catch_unwind(AssertUnwindSafe(|| objs[oi].st.handle_init(&mut out).is_ok()));
+                objs[oi].trace.push(format!("recv FORGED ({})", ["bit flip", "truncation", "random bytes"][kind as usize]));
+                match res {
+                    Err(_) => { fail(&mut failing, format!("handle_init panics on a forged datagram, object {} after [{}]", oi, objs[oi].trace.join(", "))); objs[oi].dead = true; }
+                    Ok(true) => { fail(&mut failing, format!("a FORGED handshake datagram ({} bytes) is accepted (answered with {} bytes) by object {} in stage {} after [{}]; it was made from the {}-byte datagram \"{}\"", forged.len(), out.len(), oi, before_stage, objs[oi].trace.join(", "), pool[mi].0.len(), pool[mi].2)); }
+                    Ok(false) => {
+                        if objs[oi].st.stage() != before_stage { fail(&mut failing, format!("a forged handshake datagram moves object {} from stage {} to stage {} after [{}]", oi, before_stage, objs[oi].st.stage(), objs[oi].trace.join(", "))); }
+                    }
+                }
+                continue;
+            }
             let (bytes, from_node, what) = pool[mi].clone();
             let mut out = MsgBuffer::new(100);
             out.clone_from(&bytes);
